@@ -108,7 +108,7 @@ def own_deps(task) -> list:
             for x in v.values():
                 walk(x)
 
-    for f in FIELDS:
+    for f in FIELDS + getattr(type(task), 'EXTRA_FIELDS', ()):
         walk(getattr(task, f))
     return out
 
@@ -130,7 +130,7 @@ def all_dep_instances(task) -> list:
             for x in v.values():
                 walk(x)
 
-    for f in FIELDS:
+    for f in FIELDS + getattr(type(task), 'EXTRA_FIELDS', ()):
         walk(getattr(task, f))
     return out
 
@@ -417,8 +417,14 @@ try:
 except TypeError:            # a labtech.task() that does not accept this spelling
     TL = _mk('TL', max_parallel=1)
 
-TYPES = {c.__name__: c for c in (TA, TB, TC, TD, TN, TM, TF, TP, TJ, T2, TG, TX, TH, TK, TC1, TC2, TL, TFN)}
+# A task type derived from another task type (TB, declared with max_parallel=1): it adds a parameter
+# of its own - where its dependencies are put - and is decorated WITHOUT max_parallel, i.e. declared
+# unlimited; everything else is inherited.
+TS = labtech.task(type('TS', (TB,), {'__annotations__': {'ext': Any}, 'ext': None, '__module__': __name__, '__qualname__': 'TS',
+                                     'EXTRA_FIELDS': ('ext',)}))
+
+TYPES = {c.__name__: c for c in (TA, TB, TC, TD, TN, TM, TF, TP, TJ, T2, TG, TX, TH, TK, TC1, TC2, TL, TFN, TS)}
 # the limits and cacheability the *declarations above* ask for - never read back from labtech
 MAX_PARALLEL = {'TA': None, 'TB': 1, 'TC': 2, 'TD': 3, 'TN': None, 'TM': 1, 'TF': None, 'TP': None, 'TJ': None, 'T2': None,
-                'TG': None, 'TX': None, 'TH': None, 'TK': 2, 'TC1': 2, 'TC2': 2, 'TL': 1, 'TFN': None}
+                'TG': None, 'TX': None, 'TH': None, 'TK': 2, 'TC1': 2, 'TC2': 2, 'TL': 1, 'TFN': None, 'TS': None}
 CACHEABLE = {n: n not in ('TN', 'TM', 'TK', 'TFN') for n in TYPES}
